@@ -465,7 +465,10 @@ def r15_13(ctx: Ctx) -> None:
     for name, m in sorted(cls.methods.items()):
         for n in [n for n in walk(m.node) if isinstance(n, ast.Assign) and any(norm(t_) == "self._broken" for t_ in n.targets)]:
             harmless = isinstance(n.value, ast.Constant) and n.value.value is False
-            ctx.check(harmless or name in ("write", "_writef"), "R15.13", m, n, "the session is poisoned only where a source was being archived",
+            # (wherever that block lives: the assignment stands in a handler of a try whose body calls Worker.archive)
+            in_archive_handler = any(isinstance(t_, ast.Try) and any(isinstance(x, ast.Call) and attr_tail(x) == "archive" and "worker" in norm(x.func) for st in t_.body for x in ast.walk(st))
+                                     and any(any(y is n for y in ast.walk(h_)) for h_ in t_.handlers) for t_ in walk(m.node))
+            ctx.check(harmless or in_archive_handler, "R15.13", m, n, "the session is poisoned only where a source was being archived",
                       f"`{norm(n)}` in {name}: the flag that makes close() refuse the header is set outside the handlers around Worker.archive: a harmless failed call (a missing source, "
                       "a rejected name) whose exception leaves the `with` block makes close() drop every member written before it", construct=f"{name} poisons the session")
 
